@@ -27,7 +27,7 @@ OUTSIDE = ["headings inside wrappers (C05)", "directives other than admonitions"
 STUBS = ["file system: temporary directory created at run time for the included file"]
 NONTRIVIAL_RULE = "paths whose X contains a definition (link reference, target or footnote) or a nested directive"
 
-XK = ["para", "emph", "list", "quote", "code", "refdef-use", "target-link", "footnote", "nested-note", "two-paras", "html", "hardbreak", "tabs"]
+XK = ["para", "emph", "list", "quote", "code", "refdef-use", "target-link", "footnote", "nested-note", "two-paras", "html", "hardbreak", "tabs", "rule-in-body", "indented-code-first"]
 
 
 def setup():
@@ -48,6 +48,8 @@ def x_lines(kind, n):
         "two-paras": ["X%d one" % n, "", "X%d two" % n],
         "html": ["<div>X%d</div>" % n],
         "hardbreak": ["X%d first  " % n, "second\\", "third line"],  # trailing double space / backslash = hard line breaks
+        "rule-in-body": ["X%d before the rule" % n, "", "---", "", "after the rule", "", "-----"],
+        "indented-code-first": ["    code first %d" % n, "      more code", "", "X%d para after code" % n],
         "tabs": ["X%d a\tb `c\td`" % n, "", "\tcode\tvia tab", "", "- item\ttab"],
     }[kind]
 
